@@ -446,5 +446,52 @@ func VH_C18_Copy() {
 	if i.Annotations != nil {
 		vh.Assert(i.Annotations["k"] == "v", "C18.copy-independent")
 	}
+	// independence does not depend on lengths and capacities: backing arrays with spare
+	// room (also an emptied list: length 0, capacity > 0) are not shared either, so
+	// later appends on the two sides never meet
+	var j Index
+	switch vh.Choice("topShape", 3) {
+	case 0:
+		j.Manifests = []Descriptor{vhEntry(0, 1)}
+	case 1:
+		j.Manifests = append(make([]Descriptor, 0, 4), vhEntry(0, 1))
+	case 2:
+		j.Manifests = make([]Descriptor, 0, 2)
+	}
+	switch vh.Choice("childShape", 4) {
+	case 1:
+		j.childManifests = make([]Descriptor, 0, 2)
+	case 2:
+		j.childManifests = []Descriptor{vhEntry(0, 0)}
+	case 3:
+		j.childManifests = append(make([]Descriptor, 0, 3), vhEntry(0, 0))
+	}
+	k := j.Copy()
+	hasChild := func(x *Index, d int) bool {
+		for _, c := range x.childManifests {
+			if c.Digest == vhD[d] {
+				return true
+			}
+		}
+		return false
+	}
+	k.AddChildren([]Descriptor{vhEntry(1, 0)})
+	j.AddChildren([]Descriptor{vhEntry(2, 0)})
+	vh.Assert(hasChild(&j, 2) && !hasChild(&j, 1) && hasChild(&k, 1) && !hasChild(&k, 2), "C18.copy-independent-after-append")
+	_, e1 := j.GetDesc(vhD[1].String())
+	_, e2 := j.GetDesc(vhD[2].String())
+	vh.Assert(e1 != nil && e2 == nil, "C18.copy-independent-after-append")
+	_, e1 = k.GetDesc(vhD[1].String())
+	_, e2 = k.GetDesc(vhD[2].String())
+	vh.Assert(e1 == nil && e2 != nil, "C18.copy-independent-after-append")
+	// top-level appends: a new tag on each side
+	k.AddDesc(vhEntry(0, 2))
+	j.AddDesc(vhEntry(0, 3))
+	_, e1 = j.GetDesc("t0")
+	_, e2 = j.GetDesc("t1")
+	vh.Assert(e1 != nil && e2 == nil, "C18.copy-independent-after-append")
+	_, e1 = k.GetDesc("t0")
+	_, e2 = k.GetDesc("t1")
+	vh.Assert(e1 == nil && e2 != nil, "C18.copy-independent-after-append")
 	vh.Cover("C18.copy-end")
 }
